@@ -75,3 +75,37 @@ def correct(tool, indir, db, outdir, extra=(), log='corr.log'):
     rc, out = call_main(TOOLS[tool], ['-i', indir, '-d', db, '-c', '-o', outdir, '--silent', '-l', log] + list(extra))
     lg = open(log, errors='replace').read() if os.path.exists(log) else ''
     return rc, out + lg
+
+
+@contextlib.contextmanager
+def shuffled_listing(seed):
+    """Makes directory listing order adversarial: the walk used by recwalk (aux_funcs.walk, = os.walk or scandir.walk)
+    is replaced by a top-down walk that lists every directory in a seeded random order and honours in-place edits of
+    `dirs` (as os.walk does).  A tool whose output depends on the order in which the filesystem lists entries is exposed."""
+    import random
+    rng = random.Random(seed)
+    aux = importlib.import_module('pyFileFixity.lib.aux_funcs')
+
+    def walk(top, topdown=True, onerror=None, followlinks=False):
+        try:
+            names = os.listdir(top)
+        except OSError as e:
+            if onerror:
+                onerror(e)
+            return
+        names.sort()
+        rng.shuffle(names)
+        dirs = [n for n in names if os.path.isdir(os.path.join(top, n))]
+        files = [n for n in names if not os.path.isdir(os.path.join(top, n))]
+        yield top, dirs, files
+        for d in dirs:
+            if followlinks or not os.path.islink(os.path.join(top, d)):
+                for x in walk(os.path.join(top, d), topdown, onerror, followlinks):
+                    yield x
+    saved = (aux.walk, os.walk)
+    aux.walk = walk
+    os.walk = walk
+    try:
+        yield
+    finally:
+        aux.walk, os.walk = saved
